@@ -40,7 +40,9 @@ impl<A: AcceptableMasterList, C: Clock, F: Filter, R: Rng, S: PtpInstanceStateMu
                 let time_properties_ds = &mut state.time_properties_ds;
                 let path_trace_ds = &mut state.path_trace_ds;
 
-                current_ds.steps_removed = announce.steps_removed + 1;
+                // stepsRemoved comes off the wire unscreened here (the >= 255
+                // qualification check happens when the message is registered)
+                current_ds.steps_removed = announce.steps_removed.saturating_add(1);
 
                 parent_ds.parent_port_identity = announce.header.source_port_identity;
                 parent_ds.grandmaster_identity = announce.grandmaster_identity;
